@@ -553,7 +553,7 @@ def main(tier: str) -> int:
         samples=[dict(history=[b.get("header") for b in h["builds"]] + [h["last"].get("header")], n_prefix_builds=len(h["builds"]),
                       crash_points=base_res[i]["builds"][len(h["builds"])]["n_mut"] if "builds" in base_res[i] else None)
                  for i, h in enumerate(hs[:6])],
-        variant=c10.VARIANT,
+        variant=c10.current_variant(), variant_probe=dict(c10.detect_variant()),
     ))
     return ck.finish()
 
